@@ -1,5 +1,6 @@
 """C08 — spans and span reductions (exetera/core/operations.py, session.py, fields.py) vs coq/Model/Spans.v."""
 import itertools, io
+from harness import hot
 
 PROP, NUM = 'C08', 8
 PROPS_FILES = ['Props/C08.v']
@@ -95,34 +96,36 @@ def _offsets(rows):
     return off
 
 
-def _field(col, h5=False):
-    """a Field holding the column (memory field, or HDF5-backed when h5)."""
-    np, F = _np, _fields
-    k = col['k']
+def _new_field(k, w, h5):
+    F = _fields
     if h5:
         _h5n[0] += 1
         name = 'f%d' % _h5n[0]
         if k == 'fixed':
-            f = DF.create_fixed_string(name, col['w'])
-        elif k == 'indexed':
-            f = DF.create_indexed_string(name)
-        elif k == 'cat':
-            f = DF.create_categorical(name, 'int8', {'a': 0, 'b': 1, 'c': 2, 'd': 3})
-        elif k == 'ts':
-            f = DF.create_timestamp(name)
-        else:
-            f = DF.create_numeric(name, k)
-    else:
-        if k == 'fixed':
-            f = F.FixedStringMemField(S, col['w'])
-        elif k == 'indexed':
-            f = F.IndexedStringMemField(S)
-        elif k == 'cat':
-            f = F.CategoricalMemField(S, 'int8', {'a': 0, 'b': 1, 'c': 2, 'd': 3})
-        elif k == 'ts':
-            f = F.TimestampMemField(S)
-        else:
-            f = F.NumericMemField(S, k)
+            return DF.create_fixed_string(name, w)
+        if k == 'indexed':
+            return DF.create_indexed_string(name)
+        if k == 'cat':
+            return DF.create_categorical(name, 'int8', {'a': 0, 'b': 1, 'c': 2, 'd': 3})
+        if k == 'ts':
+            return DF.create_timestamp(name)
+        return DF.create_numeric(name, k)
+    if k == 'fixed':
+        return F.FixedStringMemField(S, w)
+    if k == 'indexed':
+        return F.IndexedStringMemField(S)
+    if k == 'cat':
+        return F.CategoricalMemField(S, 'int8', {'a': 0, 'b': 1, 'c': 2, 'd': 3})
+    if k == 'ts':
+        return F.TimestampMemField(S)
+    return F.NumericMemField(S, k)
+
+
+def _field(col, h5=False):
+    """a Field holding the column (memory field, or HDF5-backed when h5)."""
+    np = _np
+    k = col['k']
+    f = _new_field(k, col.get('w'), h5)
     if k == 'indexed':
         rows = col['rows']
         if col.get('str') and all(b < 128 for r in rows for b in r):
@@ -132,6 +135,41 @@ def _field(col, h5=False):
             f.values.write(np.array([b for r in rows for b in r], dtype=np.uint8))
     else:
         f.data.write(_array(col))
+    return f
+
+
+# ---- run-length encoded columns (large inputs): {'k': kind, 'w': width, 'runs': [[value, n], ...]}, n >= 0
+def _rle_rows(rc):
+    return sum(n for _, n in rc['runs'])
+
+
+def _rle_array(rc):
+    """the expanded ndarray of a numeric / fixed run-length encoded column."""
+    np = _np
+    k = rc['k']
+    lens = np.array([n for _, n in rc['runs']], dtype=np.int64)
+    if k == 'fixed':
+        vals = np.array([bytes(v) for v, _ in rc['runs']], dtype='S%d' % rc['w'])
+    else:
+        vals = np.array([_num_value(k, v) for v, _ in rc['runs']], dtype=_np_dtype(k))
+    return np.repeat(vals, lens)
+
+
+def _rle_field(rc, h5=False):
+    np = _np
+    k = rc['k']
+    f = _new_field(k, rc.get('w'), h5)
+    if k == 'indexed':
+        runs = [(v, n) for v, n in rc['runs'] if n > 0]
+        if runs:
+            rowlen = np.repeat(np.array([len(v) for v, _ in runs], dtype=np.int64), np.array([n for _, n in runs], dtype=np.int64))
+            idx = np.zeros(len(rowlen) + 1, dtype=np.int64)
+            np.cumsum(rowlen, out=idx[1:])
+            vals = [np.tile(np.array(v, dtype=np.uint8), n) for v, n in runs if len(v)]
+            f.indices.write(idx)
+            f.values.write(np.concatenate(vals) if vals else np.zeros(0, dtype=np.uint8))
+    else:
+        f.data.write(_rle_array(rc))
     return f
 
 
@@ -201,6 +239,27 @@ def run(case):
         finally:
             _drop(f, h5)
         return out
+    if op == 'gsr':
+        rc, h5 = case['col'], case.get('h5', False)
+        f = _rle_field(rc, h5)
+        try:
+            out = {'f': _spans_out(f.get_spans()), 'sf': _spans_out(S.get_spans(f)),
+                   'kw': _spans_out(S.get_spans(field=f))}
+            if rc['k'] != 'indexed':
+                out['sa'] = _spans_out(S.get_spans(f.data[:]))
+                out['op'] = _spans_out(ops.get_spans_for_field(_rle_array(rc)))
+        finally:
+            _drop(f, h5)
+        return out
+    if op == 'gsr2f':
+        h5 = case.get('h5', False)
+        f0, f1 = _rle_field(case['c0'], h5), _rle_field(case['c1'], h5)
+        try:
+            return _spans_out(S.get_spans(fields=(f0, f1)))[0]
+        finally:
+            _drop(f0, h5); _drop(f1, h5)
+    if op == 'gsr2a':
+        return _spans_out(S.get_spans(fields=(_rle_array(case['c0']), _rle_array(case['c1']))))
     if op == 'gs2f':
         h5 = case.get('h5', False)
         f0, f1 = _field(case['c0'], h5), _field(case['c1'], h5)
@@ -304,8 +363,24 @@ def _wcol(col):
     return [0, list(col['rows'])]
 
 
+def _wrle(rc):
+    k = rc['k']
+    lens = [n for _, n in rc['runs']]
+    if k == 'fixed':
+        return [1, [_pad(v, rc['w']) for v, _ in rc['runs']], lens]
+    if k == 'indexed':
+        return [1, [list(v) for v, _ in rc['runs']], lens]
+    if k == 'bool':
+        return [0, [1 if v else 0 for v, _ in rc['runs']], lens]
+    return [0, [v for v, _ in rc['runs']], lens]
+
+
 def to_val(case):
     op = case['op']
+    if op == 'gsr':
+        return [20, _wrle(case['col'])]
+    if op in ('gsr2f', 'gsr2a'):
+        return [21, _wrle(case['c0']), _wrle(case['c1'])]
     if op == 'gs':
         return [1, _wcol(case['col'])]
     if op == 'gs2f':
@@ -338,7 +413,11 @@ def _strip(r):
 def _shape(case, v):
     """model / spec wire value -> the canonical form run() produces."""
     op = case['op']
-    if op == 'gs':
+    if op == 'gsr2f':
+        return v
+    if op == 'gsr2a':
+        return [v, 'int32']
+    if op in ('gs', 'gsr'):
         k = case['col']['k']
         if k == 'indexed':
             return {'f': [v, 'list'], 'sf': [v, 'list'], 'kw': [v, 'list']}
@@ -394,6 +473,8 @@ def features(case, model):
     if isinstance(model, str):
         f.append('err:' + model.split(':')[0] + (':' + model.split(':')[1] if model.startswith('EXC') else ''))
     op = case['op']
+    if op in ('gsr', 'gsr2f', 'gsr2a'):
+        return f + _rle_features(case)
 
     def colfeat(col, tag=''):
         rows, k = col['rows'], col['k']
@@ -485,6 +566,71 @@ def features(case, model):
     return f
 
 
+def _rle_bounds(rc):
+    """row numbers at which the expanded column changes value."""
+    out, pos, prev = [], 0, None
+    for v, n in rc['runs']:
+        if n <= 0:
+            continue
+        key = (bool(v) if rc['k'] == 'bool' else tuple(v) if isinstance(v, list) else v)
+        if prev is not None and key != prev:
+            out.append(pos)
+        prev = key
+        pos += n
+    return out
+
+
+def _rle_features(case):
+    f = []
+    cols = [case['col']] if case['op'] == 'gsr' else [case['c0'], case['c1']]
+    n = _rle_rows(cols[0])
+    for rc in cols:
+        f.append('kind:' + rc['k'])
+    f.append('rle:rows>=2^%d' % (n.bit_length() - 1) if n else 'rows=0')
+    if case.get('h5'): f.append('hdf5-backed')
+    if case.get('K'):
+        K = case['K']
+        f.append('rle:K=%d' % K)
+        f.append('rle:K-new-literal-of-tree-under-test' if case.get('hotK') else 'rle:K-standing-sweep')
+        bs = set()
+        for rc in cols:
+            bs |= set(_rle_bounds(rc))
+        for m in (1, 2, 3):
+            for d in (-1, 0, 1):
+                if m * K + d in bs:
+                    f.append('rle:boundary-at-%sK%s' % ('' if m == 1 else m, {-1: '-1', 0: '', 1: '+1'}[d]))
+        if not any((m * K) in bs for m in (1, 2, 3)) and n > K:
+            f.append('rle:no-boundary-at-multiple-of-K')
+        if n % K == 0: f.append('rle:rows-multiple-of-K')
+        if n % K == 1: f.append('rle:rows=multiple-of-K+1')
+    if case.get('layout'): f.append('rle:layout=' + case['layout'])
+    for rc in cols:
+        if any(n0 == 0 for _, n0 in rc['runs']): f.append('rle:zero-length-run')
+        rr = rc['runs']
+        if any(rr[i][0] == rr[i + 1][0] for i in range(len(rr) - 1)): f.append('rle:adjacent-runs-same-value')
+    if len(cols) == 2:
+        if _rle_rows(cols[0]) != _rle_rows(cols[1]): f.append('malformed:unequal-lengths')
+        b0, b1 = set(_rle_bounds(cols[0])), set(_rle_bounds(cols[1]))
+        if b0 & b1: f.append('shared-boundary')
+        if b0 - b1 and b1 - b0: f.append('interleaved-boundaries')
+        if (b0 and not b1) or (b1 and not b0): f.append('one-side-constant')
+    return f
+
+
+# rows above which the interpreted (USE_NUMBA=false) per-row loops of the njit kernels are not run
+NOJIT_LOOP_ROWS = 1 << 17
+
+
+def skip(case, mode):
+    op = case['op']
+    if mode == 'nojit' and op in ('gsr', 'gsr2f', 'gsr2a'):
+        cols = [case['col']] if op == 'gsr' else [case['c0'], case['c1']]
+        n = _rle_rows(cols[0])
+        if n > NOJIT_LOOP_ROWS and (op == 'gsr2a' or any(rc['k'] == 'indexed' for rc in cols)):
+            return True
+    return False
+
+
 def nontrivial(case, model):
     if isinstance(model, str) and model == 'BADCASE':
         return False
@@ -554,7 +700,153 @@ def _warm_cases():
                 yield {'op': 'apf', 'fn': fn, 'sdt': sdt, 'spans': [0, 2], 'col': _col(k, [0, 1]), 'dest': [0], 'flt': [0]}
 
 
+# ---- large inputs, run-length encoded ---------------------------------------------------------------------------
+# A vectorised entry point that starts working block by block (or a kernel that keeps a window) can lose / invent a
+# boundary only where a run boundary meets a block edge: rows K-1, K, K+1, 2K … for the block length K.  K is unknown
+# and far beyond the exhaustive scope, so (a) a standing sweep plants boundaries around every power of two 2^8..2^23 and
+# every power of ten 10^3..10^6, and (b) every integer literal that is NEW in the tree under test (harness/hot.py: the
+# small ones and the ones too large to enumerate, up to 2^23) is treated as a candidate K.  The cases are stored run-length
+# encoded and answered by spans_of_rle (theorems spans_rle_* of Props/C08.v).
+RLE_K_MAX = 1 << 23
+RLE_MAX_BYTES = 1 << 25          # size of one expanded column
+RLE_H5_BYTES = 1 << 23
+_ITEMSIZE = {'int8': 1, 'bool': 1, 'cat': 1, 'fixed': 2, 'int32': 4, 'float32': 4, 'int64': 8, 'float64': 8, 'ts': 8,
+             'indexed': 12}
+RLE_KINDS = ['int8', 'int32', 'bool', 'fixed', 'cat', 'float32', 'int64', 'indexed', 'float64', 'ts']
+_RLE_FIXED = [[97], [98], [97, 32]]         # a, b differ in a byte; c differs from a only by a trailing blank
+_RLE_INDEXED = [[97], [98], [97, 32], []]   # a, b same length; c longer; d empty
+
+
+def _rle_layouts(K):
+    a, b, c = 0, 1, 2
+    L = [('boundary-at-K', [(a, K), (b, K)]),
+         ('boundary-at-K-1', [(a, K - 1), (b, K + 1)]),
+         ('boundary-at-K+1', [(a, K + 1), (b, K - 1)]),
+         ('K+1-rows-last-row-alone', [(a, K), (b, 1)]),
+         ('K-rows-last-row-alone', [(a, K - 1), (b, 1)]),
+         ('constant-K+1-rows', [(a, K), (a, 1)]),
+         ('constant-2K+1-rows', [(a, K), (b, 0), (a, K + 1)]),
+         ('boundaries-K-1,K,K+1,2K-1,2K,2K+1', [(a, K - 1), (b, 1), (c, 1), (a, K - 2), (b, 1), (c, 1), (a, 1)]),
+         ('boundary-at-2K-only', [(a, 2 * K), (b, 1)]),
+         ('boundary-at-2K-1', [(a, 2 * K - 1), (b, 2)]),
+         ('boundaries-K,2K,3K', [(a, K), (b, K), (a, K), (b, 1)]),
+         ('short-runs-then-K,2K', [(a, 1), (b, 2), (a, K - 3), (b, K), (c, 5)])]
+    return [(name, runs) for name, runs in L if all(n >= 0 for _, n in runs)]
+
+
+def _rle_pairs(K):
+    a, b = 0, 1
+    return [('shared-boundary-at-K', [(a, K), (b, K)], [(b, K), (a, K)]),
+            ('only-second-column-changes-at-K', [(a, K), (a, K)], [(a, K), (b, K)]),
+            ('only-first-column-changes-at-K', [(a, K), (b, K + 1)], [(a, 2 * K + 1)]),
+            ('interleaved-K-1/K+1', [(a, K - 1), (b, K + 1)], [(a, K + 1), (b, K - 1)]),
+            ('K/2K-of-2K+1-rows', [(a, K), (b, K + 1)], [(b, 2 * K), (a, 1)])]
+
+
+def _rle_col(k, runs):
+    """codes 0..3 of a layout -> the values of the kind."""
+    if k == 'fixed':
+        return {'k': k, 'w': 2, 'runs': [[list(_RLE_FIXED[v % 3]), n] for v, n in runs]}
+    if k == 'indexed':
+        return {'k': k, 'runs': [[list(_RLE_INDEXED[v % 4]), n] for v, n in runs]}
+    if k == 'bool':
+        return {'k': k, 'runs': [[v % 2, n] for v, n in runs]}
+    return {'k': k, 'runs': [[v, n] for v, n in runs]}
+
+
+def _rle_fits(k, n):
+    return n * _ITEMSIZE[k] <= RLE_MAX_BYTES
+
+
+def rle_sizes(tier):
+    """[(K, is_new_literal)]: the standing sweep, then the new literals of the tree under test."""
+    ks = [(1 << e, False) for e in range(8, 24)] + [(10 ** e, False) for e in range(3, 7)]
+    if tier == 'thorough':
+        ks += [(3 << e, False) for e in range(8, 22, 2)] + [(5 * 10 ** 6, False)]
+    new = [k for k in list(hot.hot_sizes()) + list(hot.big_sizes()) if 2 <= k <= RLE_K_MAX]
+    return ks + [(k, True) for k in sorted(set(new))[:8]]
+
+
+def unreachable_sizes():
+    """new literals that are too large to plant (reported in the evidence)."""
+    return [k for k in hot.big_sizes() if k > RLE_K_MAX]
+
+
+def _gen_rle(tier, rng):
+    big = tier == 'thorough'
+    t = 0
+    pair_kinds = [('int8', 'int8'), ('int32', 'fixed'), ('fixed', 'int8'), ('bool', 'int32'), ('indexed', 'int8'),
+                  ('int64', 'float64'), ('cat', 'indexed')]
+    for K, new in rle_sizes(tier):
+        every = big or new                       # thorough / a new literal: every layout x every kind that fits
+        for name, runs in _rle_layouts(K):
+            n = sum(x for _, x in runs)
+            kinds = RLE_KINDS if every else [RLE_KINDS[(t + j) % len(RLE_KINDS)] for j in (0, 3)]
+            for k in kinds:
+                if not _rle_fits(k, n):
+                    k = 'int8' if not every else None
+                if k is None:
+                    continue
+                t += 1
+                yield {'op': 'gsr', 'K': K, 'hotK': bool(new), 'layout': name, 'col': _rle_col(k, runs),
+                       'h5': t % 8 == 0 and n * _ITEMSIZE[k] <= RLE_H5_BYTES}
+        for name, r0, r1 in _rle_pairs(K):
+            n = sum(x for _, x in r0)
+            combos = pair_kinds if every else [pair_kinds[(t + j) % len(pair_kinds)] for j in (0, 2)]
+            for (k0, k1) in combos:
+                if not (_rle_fits(k0, n) and _rle_fits(k1, n)):
+                    if every:
+                        continue
+                    k0, k1 = 'int8', 'bool'
+                t += 1
+                c0, c1 = _rle_col(k0, r0), _rle_col(k1, r1)
+                yield {'op': 'gsr2f', 'K': K, 'hotK': bool(new), 'layout': name, 'c0': c0, 'c1': c1,
+                       'h5': t % 16 == 0 and n * 8 <= RLE_H5_BYTES}
+                if 'indexed' not in (k0, k1):
+                    yield {'op': 'gsr2a', 'K': K, 'hotK': bool(new), 'layout': name, 'c0': c0, 'c1': c1}
+    # structured random: run lengths drawn around a size of the sweep, values from a small alphabet
+    sizes = [K for K, _ in rle_sizes(tier) if K <= (1 << 21 if big else 1 << 19)]
+
+    def rnd_runs(K, total=None):
+        runs, n = [], 0
+        goal = total if total is not None else rng.choice([K + 1, 2 * K, 2 * K + 1, 3 * K])
+        while n < goal:
+            ln = rng.choice([0, 1, 1, 2, 3, K - 1, K, K, K + 1, K // 2, 2 * K])
+            ln = max(0, min(ln, goal - n if total is not None or rng.random() < 0.5 else ln))
+            runs.append((rng.randrange(3), ln)); n += ln
+        return runs, n
+    for _ in range(400 if big else 60):
+        K = rng.choice(sizes)
+        r0, n = rnd_runs(K)
+        r1, n1 = rnd_runs(K, n)
+        k0 = rng.choice([k for k in RLE_KINDS if _rle_fits(k, n)])
+        k1 = rng.choice([k for k in RLE_KINDS if _rle_fits(k, n)])
+        yield {'op': 'gsr', 'K': K, 'layout': 'random', 'col': _rle_col(k0, r0), 'h5': rng.random() < 0.05 and n * _ITEMSIZE[k0] <= RLE_H5_BYTES}
+        c0, c1 = _rle_col(k0, r0), _rle_col(k1, r1)
+        yield {'op': 'gsr2f', 'K': K, 'layout': 'random', 'c0': c0, 'c1': c1}
+        if 'indexed' not in (k0, k1):
+            yield {'op': 'gsr2a', 'K': K, 'layout': 'random', 'c0': c0, 'c1': c1}
+
+
+RLE_STRIDE = 48      # one large case after this many small ones: spreads them over the worker batches
+
+
 def gen(tier, rng):
+    import random
+    larges = _gen_rle(tier, random.Random(rng.getrandbits(64)))
+    n = 0
+    for c in _gen_small(tier, rng):
+        yield c
+        n += 1
+        if n % RLE_STRIDE == 0:
+            nxt = next(larges, None)
+            if nxt is not None:
+                yield nxt
+    for c in larges:
+        yield c
+
+
+def _gen_small(tier, rng):
     big = tier == 'thorough'
     cnt = [0]
 
@@ -738,6 +1030,17 @@ def shrink(case):
     def without(rows, i):
         return rows[:i] + rows[i + 1:]
     op = case['op']
+    if op in ('gsr', 'gsr2f'):
+        key = 'col' if op == 'gsr' else 'c0'
+        runs = case[key]['runs']
+        base = {k: v for k, v in case.items() if k not in ('K', 'hotK', 'layout')}
+        for i in range(len(runs)):
+            yield dict(base, **{key: dict(case[key], runs=runs[:i] + runs[i + 1:])})
+        for i, (v, n) in enumerate(runs):
+            for m in sorted({n // 2, n - (1 << max(0, n.bit_length() - 2)), n - 1}):
+                if 0 < m < n:
+                    yield dict(base, **{key: dict(case[key], runs=runs[:i] + [[v, m]] + runs[i + 1:])})
+        return
     if op == 'gs':
         for i in range(len(case['col']['rows'])):
             c = dict(case); c['col'] = dict(case['col'], rows=without(case['col']['rows'], i)); yield c
